@@ -29,6 +29,7 @@ struct C14World {
   std::map<Bytes, std::set<int>> unprotected_errors;                     // token -> codes of unprotected error responses the server sent
   std::map<std::pair<int, Bytes>, Bytes> nonce_use;                      // (sender node, nonce) -> ciphertext
   // tampering
+  std::map<Bytes, int> probe_seen;       // responses for tokens of the token-length probe
   struct Tampered { std::string kind; Bytes token; };
   std::map<Bytes, Tampered> tampered;                                    // tampered datagram bytes -> how
   struct Arrival { uint64_t t = 0; std::string kind; Bytes token; bool genuine_too = false; };
@@ -91,6 +92,7 @@ coap_response_t resp_cb(coap_session_t *, const coap_pdu_t *, const coap_pdu_t *
   note_handler(1, tok, "the client's response handler");
   int i = index_of(tok);
   if (i >= 0) g->client_saw[i].push_back(cx::msg_from_pdu(rcv));
+  else g->probe_seen[tok]++;
   return COAP_RESPONSE_OK;
 }
 
@@ -418,6 +420,44 @@ struct C14 : Property {
     }
     w.run();
     if (w.aborted) res.violate("M-live.abort", w.abort_why, "run did not quiesce: " + w.abort_why);
+    // token-length probe: the plaintext is token-less inside OSCORE, the outer message keeps the token - a request must be
+    // protected and come back whatever the length of its token (0, 1, 8), with and without an outer-only option
+    bool seq_room = plan.value("client_seq", (uint64_t)0) < (1ull << 39) && plan.value("server_seq", (uint64_t)0) < (1ull << 39);
+    if (!w.aborted && setup_ok && sess && seq_room && plan.value("token_probe", true)) {
+      // faults and tampering have stopped: what follows is judged as "once faults stop"
+      for (auto &f : w.faults) if (!f.fired) f.idx = -1;
+      w.rewrite = nullptr;
+      // differential: a control request with a 3-byte token first; only when that one is protected, sent and answered (the
+      // association is healthy: sequence numbers not exhausted, contexts matching) are the other token lengths judged
+      auto probe = [&](const Bytes &tok, bool with_host, coap_mid_t &mid) {
+        mid = COAP_INVALID_MID;
+        {
+          World::AsNode as(1);
+          coap_pdu_t *p = coap_new_pdu(COAP_MESSAGE_CON, COAP_REQUEST_CODE_GET, sess);
+          if (p) {
+            coap_add_token(p, tok.size(), tok.data());
+            if (with_host) coap_add_option(p, COAP_OPTION_URI_HOST, 10, (const uint8_t *)"me.example");
+            coap_add_option(p, COAP_OPTION_URI_PATH, 5, (const uint8_t *)"probe");
+            mid = coap_send(sess, p);
+          }
+        }
+        int before = cw.probe_seen[tok];
+        w.run_for_ms(300 * 1000);
+        return mid != COAP_INVALID_MID && cw.probe_seen[tok] > before;
+      };
+      static const size_t lens[] = {0, 1, 8};
+      for (int v = 0; v < 3 && !w.aborted; v++) {
+        bool with_host = ((plan.value("sched_salt", 1ull) >> v) & 1) != 0;
+        coap_mid_t mid;
+        if (!probe(Bytes{0xD0, 0x0C, (uint8_t)v}, with_host, mid)) { w.count("probe.token_probe_skipped_unhealthy_association"); break; }
+        Bytes tok(lens[v], (uint8_t)(0xD7 - v));
+        bool ok = probe(tok, with_host, mid);
+        w.count("probe.token_length_probe");
+        if (!ok && !w.aborted)
+          res.violate("R9.round_trip_failed", strfmt("token_length_%zu,%s", lens[v], mid == COAP_INVALID_MID ? "send_refused" : "no_response"),
+                      strfmt("a Confirmable GET with a %zu-byte token%s %s although the same request with a 3-byte token had just been answered", lens[v], with_host ? " and Uri-Host" : "", mid == COAP_INVALID_MID ? "could not be protected and sent (coap_send failed)" : "got no response within 300 s"));
+      }
+    }
     // application-level round trip
     int reached = 0;
     for (size_t i = 0; i < cw.msgs.size(); i++) {
